@@ -180,6 +180,7 @@ fn run_case(case: &Case, st: &mut RunStats) -> Outcome<Case> {
     };
     let reference = Reference { image: final_image.clone(), run: ref_run, hist, blob_descs: exec.blob_descs.clone(), pcs, images };
     let fsck_complete = |img: &[u8]| -> bool { refcodec::quick_complete(img) };
+    let reference_fsck_clean = refcodec::decode::analyse(&final_image).1.is_empty();
 
     // 2. enumerate
     let mut points: Vec<Point> = Vec::new();
@@ -290,6 +291,18 @@ fn run_case(case: &Case, st: &mut RunStats) -> Outcome<Case> {
                 if accepted {
                     accepted_count += 1;
                     st.probe("image_accepted_before_last_device_op", image != reference.image);
+                    // second judge: an accepted image must be complete by the independent fsck
+                    // (header fields included) as the completed file is
+                    if reference_fsck_clean && !matches!(pt, Point::FinalizeError { .. }) {
+                        let (_, problems) = refcodec::decode::analyse(&image);
+                        if let Some(p) = problems.first() {
+                            return Outcome::fail_narrowed(
+                                "accepted-but-not-well-formed",
+                                format!("{what}: the reader accepts an image that the independent fsck calls incomplete: {p}"),
+                                narrowed,
+                            );
+                        }
+                    }
                 }
                 // second judge: an image the independent fsck calls complete must equal the completed file's content
                 if !accepted && fsck_complete(&image) && image == reference.image {
